@@ -175,12 +175,23 @@ def mc(ctx):
 
 
 # ------------------------------------------------------------------------------------------- scenario generation
+VALFAMS = None  # set below (needs fam/fams)
+
+
 def gen(ctx, name, families):
     # + the directed scenarios (ordering established by the driver before the reducer writes), see MRContract!Directed
-    K = dict(Fams=families, Orders='{"cancel-before-write","ctx-before-write","workers-held"}')
+    # + the value dimension: the families VALFAMS once more for every non-ordinary kind of written value
+    K = dict(Fams=families, Orders='{"cancel-before-write","ctx-before-write","workers-held"}', ValFams=VALFAMS,
+             Vals='{"nil","typednil","zero-int","zero-str","false"}')
     cfg = core.render_cfg(spec="GSpec", constants=K, invariants=["Emit", "SaneInv"])
     r = ctx.tlc("MRContractGen", cfg, constants=K, name=name, workers=4, timeout=900)
     return r.printed
+
+
+VALFAMS = fams(fam(Apis='{"MapReduce","MapReduceChan","MapReduceVoid"}', NSet="0..2", WSet="1..2", MBSet='{"w0","w1","w2"}',
+                   RStopSet="{-1,1}", RWSet="0..2", REndSet='{"ret"}', GenKSet="{-1}", CtxSet='{"bg"}'),
+               fam(Apis='{"MapReduce","MapReduceChan"}', NSet="1..2", WSet="{2}", MBSet='{"w1","cancelE","panic"}',
+                   RStopSet="{-1,0}", RWSet="0..1", REndSet='{"ret"}', GenKSet="{-1}", CtxSet='{"bg"}'))
 
 
 def scenario_cases(ctx):
@@ -231,7 +242,8 @@ def run(ctx):
     # recording pass (code -> spec): a sample of the scenarios is executed once more with the user functions logging
     # their events; TLC validates every recorded history against the contract-level acceptor spec/MRTrace.tla
     step = 7 if ctx.quick else 5
-    sample = [c for i, c in enumerate(cases) if (i % step == 0 or '"order":""' not in c) and '"n":100' not in c]
+    sample = [c for i, c in enumerate(cases) if (i % step == 0 or '"order":""' not in c) and '"n":100' not in c
+              and '"val":"ord"' in c]  # the acceptor identifies values by their distinct ordinary ids
     spath, _ = ctx.write_cases("cases-trace.ndjson", sample)
     tpath = os.path.join(ctx.build, "trace.ndjson")
     _, tbad = ctx.replay(PKG, OVERLAY, RUN, spath, label="rec", shards=1, binp=binp, gomaxprocs=4, timeout=900,
